@@ -259,7 +259,10 @@ def oracle(scn: dict, root: str, before: dict, after: dict, outcome: str, failed
     sharded = scn.get("max_shard") is not None
     dests = {}
     if not sharded:
-        d = os.path.relpath(_dest_path(scn, root, scn["req"]), root)
+        # destination as the save must see it at its start: the target of a symbolic link, else the path
+        d = scn["req"]
+        if d in before and before[d][0] == "link":
+            d = os.path.normpath(os.path.join(os.path.dirname(d), before[d][1]))
         dests[d] = True
     # 1. atomicity of an existing destination
     for d in dests:
@@ -658,10 +661,12 @@ def run(ck) -> None:
 
 
 def report(ck, oracle_failures: list[dict]) -> None:
+    import re
     seen = set()
     for f in oracle_failures:
-        sig = (f["mode"], tuple(sorted(set(x.split(" ")[0] + x.split(" ")[-1] for x in f["failures"]))))
-        if sig in seen:
+        norm = [re.sub(r"\.[A-Za-z0-9_]{8}(?=/|$)", ".TMP", re.sub(r"\d+", "N", x)) for x in f["failures"]]
+        sig = (f["mode"], tuple(sorted(set(norm)))[:2])
+        if sig in seen or len(seen) >= 4:
             continue
         seen.add(sig)
         small = shrink(ck, f)
